@@ -71,13 +71,17 @@ Record lrec := {
   l_obs : obs
 }.
 
-(* exception contexts possible between effect k-1 and effect k *)
+(* exception contexts possible between effect k-1 and effect k: that of either neighbour, and - when the
+   run leaves the try block for the exit phase without any effect in between (a BaseException that no
+   clause catches passes the `except` lines) - the propagating context                                  *)
 Definition ctx_at (t : list (ctx * eff)) (k : nat) : list ctx :=
-  (match k with
-   | 0 => [CProp]
-   | S k' => match nth_error t k' with Some (c, _) => [c] | None => [] end
-   end) ++
-  (match nth_error t k with Some (c, _) => [c] | None => [CAtexit] end).
+  let before := match k with
+                | 0 => Some CProp
+                | S k' => match nth_error t k' with Some (c, _) => Some c | None => None end
+                end in
+  let after := match nth_error t k with Some (c, _) => c | None => CAtexit end in
+  (match before with Some c => [c] | None => [] end) ++ [after] ++
+  (match before, after with Some CTry, CAtexit => [CProp] | _, _ => [] end).
 
 Definition check_at (v : variant) (d : dir) (r : lrec) (g : sig) (c : ctx) (k : nat) : bool :=
   let t := runner v (l_out r) (boot d) in
